@@ -191,9 +191,11 @@ package vaa
 //@   props C13
 //@   nopanic
 
+// the message id names the stream and the sequence, one decimal / hex segment each
 //@ func (v *VAA) MessageID() (s string)
 //@   props C13
 //@   requires v != nil
+//@   ensures [format] hasFormat(s, "%d/%s/%d/%d", v.EmitterChain, v.EmitterAddress, v.TargetChain, v.Sequence)
 //@   nopanic
 
 //@ func (v *VAA) HexDigest() (s string)
